@@ -145,6 +145,18 @@ class Resolver:
     def resolve(self, node, m=None, local_names=()):
         """Resolve a Name/Attribute expression node."""
         m = m or node._module
+        if not local_names:
+            cache = self.__dict__.setdefault('_resolve_cache', {})
+            key = (id(node), id(m))
+            hit = cache.get(key)
+            if hit is not None and hit[0] is node:
+                return hit[1]
+            res = self._resolve_uncached(node, m, ())
+            cache[key] = (node, res)        # the node is kept alive, so its id cannot be reused
+            return res
+        return self._resolve_uncached(node, m, local_names)
+
+    def _resolve_uncached(self, node, m, local_names):
         d = dotted(node)
         if d is None:
             return None
@@ -245,6 +257,13 @@ class Resolver:
 
     def class_attr(self, cref, attr):
         """(module, value-node or FunctionDef) of attr looked up through the MRO."""
+        cache = self.__dict__.setdefault('_class_attr_cache', {})
+        key = (cref, attr)
+        if key not in cache:
+            cache[key] = self._class_attr_uncached(cref, attr)
+        return cache[key]
+
+    def _class_attr_uncached(self, cref, attr):
         for m, node in self.mro(cref):
             for stmt in node.body:
                 if isinstance(stmt, (ast.FunctionDef, ast.ClassDef)) and stmt.name == attr:
